@@ -87,7 +87,7 @@ func (x *Exec) builtin(name string, c *ssa.CallCommon, args []Value, st *State) 
 		case *types.Slice:
 			return SlLen(a)
 		case *types.Basic:
-			return app(SInt, "str.len", a)
+			return app(SInt, "s.len", a)
 		case *types.Map:
 			return x.mapLen(a, t, st)
 		case *types.Array:
@@ -174,7 +174,7 @@ func (x *Exec) builtin(name string, c *ssa.CallCommon, args []Value, st *State) 
 	case "ssa:wrapnilchk":
 		return args[0]
 	case "ssa:deferstack":
-		return Term{"0", SInt}
+		return TNil
 	case "clear":
 		x.fail("builtin clear")
 	}
@@ -482,7 +482,8 @@ func (x *Exec) havocCall(site ssa.Instruction, sig *types.Signature, name string
 	st.alloc = u.W.Fresh("alloc", SInt)
 	x.assume(Ge(st.alloc, allocBefore))
 	delete(heaps, "*iface*")
-	g := &Gen{kind: "havoc", parent: pre, guard: x.curBlockReach, tag: "c", allocBefore: allocBefore}
+	aa := st.alloc
+	g := &Gen{kind: "havoc", parent: pre, guard: x.curBlockReach, tag: "c", allocBefore: allocBefore, allocAfter: &aa}
 	if !all && len(heaps) == 0 {
 		g = pre.gen // nothing pre-existing can be written: keep the heaps
 	} else {
@@ -589,6 +590,15 @@ func (x *Exec) modularCall(site ssa.Instruction, fn *ssa.Function, fc *FuncContr
 		argTerms = append(argTerms, t)
 		vars[p.Name()] = SVal{T: t, GT: p.Type()}
 	}
+	// ghost: number of calls of this contracted function on the current path
+	ck := "calls:" + fnDisplayName(fn)
+	if !x.pure {
+		if c, ok := st.cells[ck].(Term); ok {
+			st.cells[ck] = Add(c, IntLit(1))
+		} else {
+			st.cells[ck] = IntLit(1)
+		}
+	}
 	pre := st.Clone()
 	callName := fmt.Sprintf("call %s", fnDisplayName(fn))
 	// requires
@@ -626,7 +636,8 @@ func (x *Exec) modularCall(site ssa.Instruction, fn *ssa.Function, fc *FuncContr
 		st.alloc = u.W.Fresh("alloc", SInt)
 		x.assume(Ge(st.alloc, allocBefore))
 		st.heaps = map[string]Term{}
-		g := &Gen{kind: "havoc", parent: pre, guard: x.curBlockReach, tag: "c." + shortFn(fn), allocBefore: allocBefore}
+		aa := st.alloc
+		g := &Gen{kind: "havoc", parent: pre, guard: x.curBlockReach, tag: "c." + shortFn(fn), allocBefore: allocBefore, allocAfter: &aa}
 		if !callee.any {
 			cf := callee
 			g.writable = func(heap string, p Term) Term { return cf.Writable(heap, p) }
@@ -731,6 +742,19 @@ func init() {
 			return Lt(x.timeNs(x.term(args[0])), x.timeNs(x.term(args[1])))
 		},
 		"strings.Map":                   stringsMap,
+		"sync/atomic.AddInt64": func(x *Exec, site ssa.Instruction, fn *ssa.Function, args []Value, st *State) Value {
+			l := x.locOf(args[0], fn.Signature.Params().At(0).Type(), st)
+			nv := Add(x.term(x.load(l, st)), x.term(args[1]))
+			x.store(l, nv, st)
+			return nv
+		},
+		"sync/atomic.LoadInt64": func(x *Exec, site ssa.Instruction, fn *ssa.Function, args []Value, st *State) Value {
+			return x.load(x.locOf(args[0], fn.Signature.Params().At(0).Type(), st), st)
+		},
+		"sync/atomic.StoreInt64": func(x *Exec, site ssa.Instruction, fn *ssa.Function, args []Value, st *State) Value {
+			x.store(x.locOf(args[0], fn.Signature.Params().At(0).Type(), st), args[1], st)
+			return nil
+		},
 		"encoding/json.Unmarshal":       unmarshalLike(1),
 		"gopkg.in/yaml.v3.Unmarshal":    unmarshalLike(1),
 		"(*sync.RWMutex).Lock":    lockOp("W", true),
@@ -1000,7 +1024,8 @@ func unmarshalLike(argIdx int) intrinsic {
 		st.alloc = w.Fresh("alloc", SInt)
 		x.assume(Ge(st.alloc, allocBefore))
 		st.heaps = map[string]Term{}
-		st.gen = &Gen{kind: "havoc", parent: pre, guard: x.curBlockReach, tag: "dec", allocBefore: allocBefore, writable: writable}
+		aa := st.alloc
+		st.gen = &Gen{kind: "havoc", parent: pre, guard: x.curBlockReach, tag: "dec", allocBefore: allocBefore, writable: writable, allocAfter: &aa}
 		return mkres()
 	}
 }
